@@ -160,12 +160,25 @@ func c14(c *ev.Ctx) {
 			return
 		}
 		r := c.Rng("re", i)
-		pat := strings.Map(func(x rune) rune {
-			if x == '\n' || x == '\r' {
-				return 'z'
+		pat := randUnicodeString(r)
+		if i%3 == 0 {
+			// two cases in three keep raw line feeds and carriage returns inside the literal
+			pat = strings.Map(func(x rune) rune {
+				if x == '\n' || x == '\r' {
+					return 'z'
+				}
+				return x
+			}, pat)
+		} else if i%3 == 1 {
+			at := r.Intn(len(pat) + 1)
+			for try := 0; try < 50 && !utf8.RuneStart(append([]byte(pat), 'x')[at]); try++ {
+				at = r.Intn(len(pat) + 1)
 			}
-			return x
-		}, randUnicodeString(r))
+			if !utf8.RuneStart(append([]byte(pat), 'x')[at]) {
+				at = len(pat)
+			}
+			pat = pat[:at] + []string{"\n", "\r\n", "\r", "\n\n", "\t\n ", "?\n?"}[r.Intn(6)] + pat[at:]
+		}
 		if pat == "" || strings.HasPrefix(pat, "(?") {
 			pat = "a" + pat
 		}
